@@ -7,8 +7,6 @@ mkdir -p /tmp/mut
 rm -f /tmp/mut/sweep_*.out; ls -d /verif/seeded/*/ > /tmp/mut/sweep_list.txt
 worker() {
   k=$1; wt=/tmp/mut/sw$k; i=0
-  git -C /repo worktree remove --force $wt 2>/dev/null; git -C /repo worktree prune
-  git -C /repo worktree add --detach -q $wt HEAD || exit 2
   for d in $(cat /tmp/mut/sweep_list.txt); do
     i=$((i+1)); [ $((i % nw)) -eq $k ] || continue
     name=$(basename $d); [ -f $d/patch.diff ] || continue
@@ -27,10 +25,15 @@ worker() {
     [ -n "$(jq -r '.obsolete // ""' $d/meta.json)" ] && r="$r [marked obsolete: $(jq -r .obsolete $d/meta.json | cut -c1-90)]"
     echo "$name $id $r"
   done
-  git -C /repo worktree remove --force $wt
   rm -f /verif/.work/bin/harness-_tmp_mut_sw$k.test /verif/.work/alt-_tmp_mut_sw$k.* /verif/.work/evidence-alt-*
 }
+# worktrees are created one after the other (concurrent "git worktree" calls race on /repo/.git/worktrees)
+for k in $(seq 0 $((nw-1))); do
+  git -C /repo worktree remove --force /tmp/mut/sw$k 2>/dev/null
+  git -C /repo worktree add --detach -q /tmp/mut/sw$k HEAD || exit 2
+done
 for k in $(seq 0 $((nw-1))); do worker $k > /tmp/mut/sweep_$k.out 2>&1 & done
 wait
+for k in $(seq 0 $((nw-1))); do git -C /repo worktree remove --force /tmp/mut/sw$k; done
 cat /tmp/mut/sweep_*.out | sort > /verif/seeded/SWEEP.txt
 grep -c KILLED /verif/seeded/SWEEP.txt
